@@ -695,6 +695,12 @@ ASMJIT_FAVOR_SPEED Error Assembler::_emit(InstId inst_id, const Operand_& o0, co
     // -----------------
 
     case InstDB::kEncodingX86Op:
+      // MONITOR / MONITORX name their address as an explicit memory operand ([zax]): its segment and address-size overrides
+      // must be honored.
+      if (o0.is_mem() && is_implicit_mem(o0, Gp::kIdAx)) {
+        rm_rel = &o0;
+        goto EmitX86OpImplicitMem;
+      }
       goto EmitX86Op;
 
     case InstDB::kEncodingX86Op_Mod11RM:
